@@ -168,6 +168,15 @@ where
                         }
                     }
                 }
+                // element counts raised / lowered with an element inserted / removed
+                for (what, edited) in count_field_edits(&bytes) {
+                    if let Ok(p2) = from_bytes::<SigmaProof<D::Response>, _>(&mut &edited[..]) {
+                        report.trace(1);
+                        if to_bytes(&p2) != bytes && verify_in(tr, ctx, &d, &p2) {
+                            return fail("proof-verifies-with-altered-response", json!({"edit": what}));
+                        }
+                    }
+                }
                 // truncated / extended proofs do not decode to something that verifies
                 if from_bytes::<SigmaProof<D::Response>, _>(&mut &bytes[..bytes.len() - 1]).map(|p| verify_in(tr, ctx, &d, &p)).unwrap_or(false) {
                     return fail("truncated-proof-verifies", json!({}));
